@@ -212,7 +212,7 @@ INSTRUMENT_TIMERS = ["timeout/timeout.go", "kvs/inmem/inmem.go"]
 # files whose mutex-protected regions are announced to the harness: `X.lock.Lock()` is followed by
 # verifEnter(X, site) and every `X.lock.Unlock()` is preceded by verifLeave(X, site) (both defined in the
 # package's overlay accessor; no-ops unless the harness installs a hook).  Only calls are INSERTED.
-INSTRUMENT_SECTIONS = ["kvs/inmem/inmem.go", "container/lru/ecache.go", "timeout/timeout.go"]
+INSTRUMENT_SECTIONS = ["kvs/inmem/inmem.go", "container/lru/ecache.go", "timeout/timeout.go", "container/bytes/blocks.go"]
 
 
 def instrument_text(rel, txt):
@@ -546,11 +546,33 @@ def stage_seq(run, cfg, sq):
         if os.environ.get("VERIF_KEEP") != "1":
             os.remove(ops)
         return
-    # classify: first decisive diff (API-level / monitor) else internal-only
-    dec = [d for d in diffs if decisive(d)]
+    # classify: first decisive diff (API-level / monitor) else internal-only.  A diff that is exactly a listed
+    # known finding is announced as such and set aside FIRST: it must neither use up a report slot nor be what a
+    # different violation in the same case gets shrunk into
+    have_known = any(k.get("status") == "known" and k["property"] == run.pid for k in load_known())
+    def known_diff(d, hdr=None):
+        if not have_known:
+            return None
+        if hdr is None:
+            hdr = extract_case(ops, d["case"], d["line"])[0]
+        return match_known(run.pid, f"{comp}: case({hdr}) [] -> at `{d['op']}`: {d['detail']}")
+    kept = []
+    for n, d in enumerate(diffs):
+        k = known_diff(d) if (n < 400 and decisive(d)) else None
+        if k is not None:
+            if k["id"] not in [x["id"] for x in run.known_hits]:
+                run.known_hits.append(k)
+        else:
+            kept.append(d)
+    diffs = kept
+    if not diffs:
+        return
+    decisive0 = decisive
+    dec = [d for d in diffs if decisive0(d)]
     reported = set()
     for d in (dec[:40] if dec else diffs[:1]):
         hdr, cops = extract_case(ops, d["case"], d["line"])
+        decisive = lambda d, hdr=hdr: decisive0(d) and known_diff(d, hdr) is None
         if sq.get("stateless") and cops:
             cops = cops[-1:]
         is_dec = decisive(d)
@@ -720,7 +742,7 @@ def run_property(pid, tier):
             if run.violations:
                 break
         run.seed = seed0
-        if (proof_broken or extractor_broken) and not run.violations and not run.known_hits:
+        if (proof_broken or extractor_broken) and not run.violations:   # (a known finding being present must not hide this)
             # the search (correspondence + monitors on the real code) found no concrete failing input
             what = proof_broken or extractor_broken
             run.violation("proof obligation no longer checks against the regenerated definitions: " + what,
